@@ -333,6 +333,85 @@ example : addLongRange [] 0 2 (some true) (1/3) =
          ⟨.ry, [0], .mhpi⟩, ⟨.ry, [2], .mhpi⟩] := by decide +kernel
 
 
+/-! ## Circuit assembly (the functions the correspondence runs: `*Circuit`, `addHopping`, `lookupQiskitOrdering`) -/
+
+theorem repeatSteps_succ (n : Nat) (step : List Gate) : repeatSteps (n + 1) step = step ++ repeatSteps n step := by
+  simp [repeatSteps, List.replicate_succ]
+
+theorem repeatSteps_length (n : Nat) (step : List Gate) : (repeatSteps n step).length = n * step.length := by
+  induction n with
+  | zero => simp [repeatSteps]
+  | succ k ih => rw [repeatSteps_succ, List.length_append, ih]; ring
+
+/-- the two-qubit gates called `nm` of a repeated step are the step's own, repeated in the same order -/
+theorem gatePairs_repeat (nm : GName) (n : Nat) (step : List Gate) :
+    gatePairs nm (repeatSteps n step) = (List.replicate n (gatePairs nm step)).flatten := by
+  induction n with
+  | zero => simp [repeatSteps, gatePairs]
+  | succ k ih =>
+    rw [repeatSteps_succ, List.replicate_succ, List.flatten_cons, ← ih]
+    simp [gatePairs, List.filterMap_append]
+
+/-- **C07 (circuit assembly)** every Trotter circuit builder of the library returns its one-step gate list repeated,
+    with nothing in between: `timesteps` copies for the spin models (so the generators of `ising_step_generators`,
+    `heisenberg_step_generators`, … are applied `timesteps` times with the step `dt`: total time `timesteps·dt`), and
+    `n·timesteps` sub-steps of the angles of `angle_sign_hubbard` (duration `dt/n` each, `hubbard_time_bookkeeping`)
+    for the two Fermi–Hubbard builders. -/
+theorem circuits_repeat_step (L R C n steps : Nat) (per : Bool) (J g Jx Jy Jz h u t mu dt : Rat) :
+    isingCircuit L per J g dt steps = (List.replicate steps (isingStep L per J g dt)).flatten ∧
+    ising2dCircuit R C J g dt steps = (List.replicate steps (ising2dStep R C J g dt)).flatten ∧
+    heisenbergCircuit L per Jx Jy Jz h dt steps = (List.replicate steps (heisenbergStep L per Jx Jy Jz h dt)).flatten ∧
+    heisenberg2dCircuit R C Jx Jy Jz h dt steps
+      = (List.replicate steps (heisenberg2dStep R C Jx Jy Jz h dt)).flatten ∧
+    fh1dCircuit L u t mu dt n steps = (List.replicate (n * steps) (fh1dSubstep L u t mu dt n)).flatten ∧
+    fh2dCircuit R C u t mu dt n steps = (List.replicate (steps * n) (fh2dSubstep R C u t mu dt n)).flatten ∧
+    (isingCircuit L per J g dt steps).length = steps * (isingStep L per J g dt).length ∧
+    gatePairs .rzz (isingCircuit L per J g dt steps)
+      = (List.replicate steps (gatePairs .rzz (isingStep L per J g dt))).flatten :=
+  ⟨rfl, rfl, rfl, rfl, rfl, rfl, repeatSteps_length _ _, gatePairs_repeat _ _ _⟩
+
+/-- **C07 (hopping term)** `add_hopping_term(circ, i, j, α)` appends the XX block and then the YY block of
+    `lri_closed_form` (both built on an empty circuit) to `circ`, and raises exactly when `i ≥ j` -/
+theorem add_hopping_rule (circ : List Gate) (i j : Nat) (α : Rat) :
+    addHopping circ i j α =
+      if i ≥ j then .error .index
+      else match addLongRange [] i j (some true) α, addLongRange [] i j (some false) α with
+        | .ok xx, .ok yy => .ok (circ ++ xx ++ yy)
+        | _, _ => .error .index := by
+  unfold addHopping
+  rw [lri_closed_form i j true α, lri_closed_form i j false α]
+  by_cases h : i ≥ j
+  · simp only [h, if_true]
+  · simp only [h, if_false]
+
+/-- the 2-D Hubbard sub-step uses `add_hopping_term` only with `i < j` (never on its error branch) for a bond
+    `(p₁, p₂)` with `p₁ < p₂`, for both spin species -/
+theorem hopGates_ok (i j : Nat) (α : Rat) (h : i < j) :
+    ∃ xx yy, addLongRange [] i j (some true) α = .ok xx ∧ addLongRange [] i j (some false) α = .ok yy ∧
+      hopGates i j α = xx ++ yy := by
+  have hn : ¬ i ≥ j := by omega
+  have hx := lri_closed_form i j true α
+  have hy := lri_closed_form i j false α
+  simp only [hn, if_false] at hx hy
+  refine ⟨_, _, hx, hy, ?_⟩
+  unfold hopGates addHopping
+  rw [hx, hy]
+  simp
+
+/-- **C07 (qubit ordering of the Hubbard builders)** `lookup_qiskit_ordering(particle, spin)` is the interleaved
+    index `2·particle + spin` for spin ∈ {↑ = 0, ↓ = 1} — the layout `fh2dSubstep` uses —, it is injective, and any other
+    spin value raises -/
+theorem lookup_ordering (p p' s s' : Nat) :
+    (s ≤ 1 → lookupQiskitOrdering p s = some (2 * p + s)) ∧ (1 < s → lookupQiskitOrdering p s = none) ∧
+    (s ≤ 1 → s' ≤ 1 → lookupQiskitOrdering p s = lookupQiskitOrdering p' s' → p = p' ∧ s = s') := by
+  refine ⟨fun h => by simp [lookupQiskitOrdering, h], fun h => by simp [lookupQiskitOrdering]; omega, ?_⟩
+  intro h h' he
+  simp only [lookupQiskitOrdering, h, h', if_true, Option.some.injEq] at he
+  omega
+
+example : (isingCircuit 3 false 1 (1/2) (1/10) 2).length = 2 * (isingStep 3 false 1 (1/2) (1/10)).length ∧
+    gatePairs .rzz (isingCircuit 3 false 1 (1/2) (1/10) 2) = [(0, 1), (1, 2), (0, 1), (1, 2)] := by decide +kernel
+
 /-! ## Hand-written 4-state tables -/
 
 section blk
@@ -797,6 +876,56 @@ theorem rotate_entry (cj : K →+* K) : ∀ (ts : List (Site K)) (σ σ' : List 
 
 example : vals (identityMpo 3 2 : List (Site Int)) [0, 1, 1] [0, 1, 1] 0 = 1 ∧
     vals (identityMpo 3 2 : List (Site Int)) [0, 1, 1] [0, 0, 1] 0 = 0 := by decide +kernel
+
+/-- **C07 (`check_if_valid_mpo`)** the validity check raises on an empty tensor list, and otherwise passes exactly when
+    every tensor's left bond equals its predecessor's right bond; every chain `to_matrix` accepts passes it -/
+theorem check_valid_iff (ts : List (Site K)) :
+    (checkValid ts = none ↔ ts = []) ∧
+    (∀ t rest, ts = t :: rest → checkValid ts = some (chainFrom t.dr rest)) ∧
+    (wellFormed ts = true → checkValid ts = some true) := by
+  refine ⟨?_, ?_, ?_⟩
+  · cases ts <;> simp [checkValid]
+  · intro t rest h; subst h; rfl
+  · cases ts with
+    | nil => simp [wellFormed]
+    | cons t rest =>
+      intro h
+      simp only [wellFormed, Bool.and_eq_true] at h
+      simp [checkValid, h.1.2]
+
+/-- **C07 (`MPO.custom`, `MPO.to_mps`)** `custom(…, transpose=True)` moves the caller's `(left, right, σ, σ')` layout to the
+    library's `(σ, σ', left, right)` without touching a value, and `to_mps` merges the two physical legs row-major:
+    entry `p = a·d + b` of the merged leg is the MPO entry `(a, b)` -/
+theorem custom_and_to_mps (d dl dr : Nat) (raw : Nat → Nat → Nat → Nat → K) (t : Site K) (a b l r : Nat)
+    (hb : b < t.d) :
+    (customSite d dl dr raw).e a b l r = raw l r a b ∧ (customSite d dl dr raw).d = d ∧
+    (customSite d dl dr raw).dl = dl ∧ (customSite d dl dr raw).dr = dr ∧
+    toMpsEntry t (a * t.d + b) l r = t.e a b l r := by
+  refine ⟨rfl, rfl, rfl, rfl, ?_⟩
+  unfold toMpsEntry
+  have hd : 0 < t.d := by omega
+  have h1 : (a * t.d + b) / t.d = a := by
+    rw [Nat.add_comm, Nat.add_mul_div_right _ _ hd, Nat.div_eq_of_lt hb, Nat.zero_add]
+  have h2 : (a * t.d + b) % t.d = b := by
+    rw [Nat.add_comm, Nat.add_mul_mod_self_right, Nat.mod_eq_of_lt hb]
+  rw [h1, h2]
+
+/-- **C07 (what is handed to the SVD)** the matrices the correspondence compares with the arguments the real code passes
+    to `np.linalg.svd`: step by step they are the regrouped remainder `fmX` of `from_matrix_step_error` (shape
+    `d²·left_rank × rest²`, next remainder `diag(s)·Vh` cut to the kept rank) and the two-site block `theta` of
+    `compress_step_block_error` at the bond being visited, on the chain as updated by the earlier steps -/
+theorem svd_inputs_spec (d : Nat) (cutoff tol : Rat) (maxB : Option Nat) (m lr : Nat) (rem : Rem K) (dec : Dec K)
+    (decs : List (Dec K)) (ts : List (Site K)) (k : Nat) (ks : List Nat) (a b : Site K)
+    (ha : ts[k]? = some a) (hb : ts[k + 1]? = some b) :
+    fromMatrixXs d cutoff maxB (m + 1) lr rem (dec :: decs) =
+      ⟨d * d * lr, d ^ (m + 1) * d ^ (m + 1), fmX d lr (d ^ (m + 1)) rem⟩ ::
+        fromMatrixXs d cutoff maxB m (Yaqs.Rank.keepFromMatrix dec.s cutoff maxB) (fmRem (d ^ (m + 1)) dec.sv dec.Vh) decs ∧
+    fromMatrixXs d cutoff maxB 0 lr rem decs = [] ∧
+    compressThetas tol maxB ts (k :: ks) (dec :: decs) =
+      ⟨a.dl * a.d * a.d, a.d * a.d * b.dr, theta a b⟩ ::
+        compressThetas tol maxB (compressStep tol maxB ts k dec) ks decs := by
+  refine ⟨rfl, rfl, ?_⟩
+  simp only [compressThetas, ha, hb]
 
 end compression
 
